@@ -725,7 +725,10 @@ impl Check for C17 {
          280-700 times, with or without clear). Every step that starts from a cleared VM is compared with the same step on a \
          newly created VM (outcome, globals, host calls, instructions executed, accounted memory at the end and its peak, \
          number of collections); the state after each clear is inspected; repeated identical steps must agree; stack-balanced \
-         programs are also compared without clear. A step is non-trivial if its fault fired or it ran on a reused VM; distinct = \
+         programs are also compared without clear. Also: early-exit programs ending 1-3 calls deep, comparisons the language \
+         leaves unordered, assignments popping an empty stack; histories around a global table that persists without clear \
+         under a 400-4400 byte limit; after every run the call-stack depth must be what it was; a run that panics or spins \
+         although the same run on a fresh VM does neither is reported. A step is non-trivial if its fault fired or it ran on a reused VM; distinct = \
          distinct (history hash, step)."
             .to_string()
     }
